@@ -132,8 +132,19 @@ func C02(p *core.Program, r *core.Report) {
 			if core.IsNilConst(ret.Results[0]) {
 				continue
 			}
-			ok, _ := core.MustPassThrough(bd, ret, func(in ssa.Instruction) bool { return core.IsCallTo(in, "(*"+webdocPkg+".TextBuilder).Reset") }, nil)
-			r.Add("O3", "a handed-out window is closed by Reset", p.Pos(ret.Pos()), ok, "every path to a non-nil result calls Reset")
+			closes := func(in ssa.Instruction) bool {
+				if st, isSt := in.(*ssa.Store); isSt && c.Of(st.Addr) == "&$0.firstNode" && c.Of(st.Val) == "len($0.textNodes)" {
+					return true
+				}
+				if call, isCall := in.(ssa.CallInstruction); isCall {
+					if f := core.Callee(call); f != nil && strings.Contains(f.String(), "webdoc.TextBuilder)") && windowCloser(p, f) {
+						return true
+					}
+				}
+				return false
+			}
+			ok, _ := core.MustPassThrough(bd, ret, closes, nil)
+			r.Add("O3", "a handed-out window is closed (firstNode moves to the end)", p.Pos(ret.Pos()), ok, "every path to a non-nil result stores firstNode = len(textNodes), directly or through Reset")
 		}
 		// an empty window yields nil
 		cut, m := core.CutAtoms(p, bd, regexp.MustCompile(`^\$0\.firstNode == len\(\$0\.textNodes\)$`), false)
@@ -145,27 +156,22 @@ func C02(p *core.Program, r *core.Report) {
 		}
 		r.Add("O3", "no Text for an empty window", p.Pos(bd.Pos()), okEmpty, "firstNode == len(textNodes) => nil")
 	}
-	if rs := mustFunc(p, r, "O3", "(*"+webdocPkg+".TextBuilder).Reset"); rs != nil {
-		ok := false
-		for _, b := range rs.Blocks {
-			for _, in := range b.Instrs {
-				if st, isSt := in.(*ssa.Store); isSt && c.Of(st.Addr) == "&$0.firstNode" {
-					ok = c.Of(st.Val) == "len($0.textNodes)"
-				}
-			}
-		}
-		r.Add("O3", "Reset moves firstNode past all collected nodes", p.Pos(rs.Pos()), ok, "")
-	}
-	// firstNode has no other writer
+	// the window start only ever moves to the end of the collected nodes
+	nFirst := 0
 	for _, fn := range p.ModFunctions(false) {
 		for _, b := range fn.Blocks {
 			for _, in := range b.Instrs {
-				if st, ok := in.(*ssa.Store); ok && strings.HasSuffix(c.Of(st.Addr), ".firstNode") && !strings.HasSuffix(fn.String(), "TextBuilder).Reset") {
-					r.Add("O3", core.ShortKey(fn)+" moves the window start", p.Pos(st.Pos()), false, "only Reset may write firstNode")
+				if st, ok := in.(*ssa.Store); ok && strings.HasSuffix(c.Of(st.Addr), ".firstNode") {
+					if _, isAlloc := st.Addr.(*ssa.FieldAddr).X.(*ssa.Alloc); isAlloc {
+						continue // constructor literal
+					}
+					nFirst++
+					r.Add("O3", core.ShortKey(fn)+" moves the window start to the end of the collected nodes", p.Pos(st.Pos()), c.Of(st.Val) == "len($0.textNodes)", "firstNode = "+c.Of(st.Val))
 				}
 			}
 		}
 	}
+	r.Add("O3", "writers of the window start found", "", nFirst >= 1, fmt.Sprintf("%d stores", nFirst))
 	if gt := mustFunc(p, r, "O3", "("+webdocPkg+".Text).GetTextNodes"); gt != nil {
 		for _, ret := range core.Returns(gt) {
 			v := c.Of(ret.Results[0])
@@ -270,6 +276,25 @@ func C02(p *core.Program, r *core.Report) {
 			r.Add("O6", "table text and HTML are rendered from the one clone", p.Pos(ret.Pos()), v == "domutil.InnerText($0.cloned)" || v == "dom.OuterHTML($0.cloned)", v)
 		}
 	}
+}
+
+// windowCloser: the TextBuilder method stores firstNode = len(textNodes) on every path.
+func windowCloser(p *core.Program, fn *ssa.Function) bool {
+	c := core.NewCanon(p)
+	rets := core.Returns(fn)
+	if len(rets) == 0 {
+		return false
+	}
+	for _, ret := range rets {
+		ok, _ := core.MustPassThrough(fn, ret, func(in ssa.Instruction) bool {
+			st, isSt := in.(*ssa.Store)
+			return isSt && c.Of(st.Addr) == "&$0.firstNode" && c.Of(st.Val) == "len($0.textNodes)"
+		}, nil)
+		if !ok {
+			return false
+		}
+	}
+	return true
 }
 
 // loopHeadersContaining returns loops of fn whose body contains a call with the given name part.
